@@ -276,6 +276,8 @@ pub struct WireReq {
     pub pending_seed: Option<u64>,
     /// slow client: (before chunk i, simulated microseconds without data)
     pub stall: Option<(usize, i64)>,
+    /// protocol version of the request line: 0 = HTTP/1.1, 1 = HTTP/1.0 (an old relay), 2 = HTTP/2
+    pub version: u8,
 }
 
 impl WireReq {
@@ -283,6 +285,11 @@ impl WireReq {
         let method = actix_web::http::Method::from_bytes(self.method.as_bytes())
             .unwrap_or(actix_web::http::Method::GET);
         let mut tr = test::TestRequest::default().method(method).uri(&self.path);
+        tr = match self.version {
+            1 => tr.version(actix_web::http::Version::HTTP_10),
+            2 => tr.version(actix_web::http::Version::HTTP_2),
+            _ => tr,
+        };
         for (k, v) in &self.headers {
             if let (Ok(n), Ok(val)) = (HeaderName::from_bytes(k.as_bytes()), HeaderValue::from_bytes(v)) {
                 tr = tr.append_header((n, val));
@@ -319,6 +326,7 @@ pub fn wire_for(req: &Req, chunking: &Chunking) -> Option<WireReq> {
             empties: vec![],
             pending_seed: None,
             stall: None,
+            version: 0,
         },
         Req::GetChild { c, parent } => WireReq {
             method: "GET".into(),
@@ -329,6 +337,7 @@ pub fn wire_for(req: &Req, chunking: &Chunking) -> Option<WireReq> {
             empties: vec![],
             pending_seed: None,
             stall: None,
+            version: 0,
         },
         Req::AddSnapshot { c, v, data } => WireReq {
             method: "POST".into(),
@@ -339,6 +348,7 @@ pub fn wire_for(req: &Req, chunking: &Chunking) -> Option<WireReq> {
             empties: vec![],
             pending_seed: None,
             stall: None,
+            version: 0,
         },
         Req::GetSnapshot { c } => WireReq {
             method: "GET".into(),
@@ -349,6 +359,7 @@ pub fn wire_for(req: &Req, chunking: &Chunking) -> Option<WireReq> {
             empties: vec![],
             pending_seed: None,
             stall: None,
+            version: 0,
         },
     })
 }
